@@ -299,6 +299,75 @@ Theorem C10_detailed_no_lost_wakeup :
 Proof. exact DL.detailed_no_lost_wakeup. Qed.
 Print Assumptions C10_detailed_no_lost_wakeup.
 
+(** Liveness without any fairness assumption: every run of the detailed system is finite,
+    with an explicit bound (no process can spin: a blocked process is disabled) ... *)
+From Webp Require Conc.ConcDetailedTerm.
+Module DT := Conc.ConcDetailedTerm.
+Theorem C10_detailed_terminates :
+  forall (V : Type) (v0 : V) (f : nat -> nat -> V -> V -> V -> V -> V) (mbW mbH : nat),
+  1 <= mbW ->
+  forall (n : nat) (sched : list label) (s : D.dstate V),
+  D.drun V v0 f mbW mbH (D.dinit V v0 n) sched = Some s -> length sched <= DT.run_bound mbW mbH n.
+Proof. exact DT.detailed_terminates. Qed.
+Print Assumptions C10_detailed_terminates.
+
+(** ... so under EVERY scheduler an execution that is continued as long as a step is
+    enabled reaches the final state (all rows encoded, all tokens recorded) within the
+    bound: at any point of any run either the state is final or some step is enabled. *)
+Theorem C10_detailed_always_reaches_final :
+  forall (V : Type) (v0 : V) (f : nat -> nat -> V -> V -> V -> V -> V) (mbW mbH : nat),
+  1 <= mbW ->
+  forall (n : nat) (sched : list label) (s : D.dstate V), 1 <= n ->
+  D.drun V v0 f mbW mbH (D.dinit V v0 n) sched = Some s ->
+  length sched <= DT.run_bound mbW mbH n /\
+  (D.dfinal V mbH s = true \/ exists l, D.dstep V v0 f mbW mbH s l <> None).
+Proof. exact DT.detailed_always_reaches_final. Qed.
+Print Assumptions C10_detailed_always_reaches_final.
+
+(** sync.Pool shared by concurrent public-API calls (ConcPoolShare.v), composed with C11's
+    pool model: any number of goroutines, Get / Put events interleaved arbitrarily, the
+    runtime free to drop pooled objects, to hand out any pooled object or none, to keep a
+    returned object or not.  Under the hypotheses of C11's history_independent (reset
+    completeness — a regenerated, machine-checked fact per pooled type —, frame condition,
+    dimension gate, ConstZero fields) every call returns what it returns on a fresh object ... *)
+From Webp Require Conc.PoolModel Conc.ConcPoolShare.
+Module PM := Conc.PoolModel.
+Module PS := Conc.ConcPoolShare.
+Theorem C10_pool_share_outputs_fresh :
+  forall (Args Out Val Shape : Type) (shape : Args -> Val -> Shape)
+         (fields : list String.string) (cls : list (String.string * PM.fclass))
+         (assigned released : list String.string) (init : Args -> String.string -> Val) (nilv zerov : Val)
+         (gate : Args -> PM.obj Val -> bool) (run : Args -> PM.obj Val -> Out * PM.obj Val),
+  PM.reset_complete_b fields cls assigned released = true ->
+  PM.frame_condition Args Out Val Shape shape fields cls run ->
+  PM.dimension_gate_condition Args Val Shape shape fields cls assigned init gate ->
+  (forall a, PM.czero_inv Val fields cls zerov (PM.fresh Args Val init a)) ->
+  (forall a o, PM.czero_inv Val fields cls zerov o -> PM.czero_inv Val fields cls zerov (snd (run a o))) ->
+  forall (es : list (PS.event Args)) (st : PS.pstate Args Out Val) (g : nat) (a : Args) (out : Out),
+  PS.prun Args Out Val assigned released init nilv gate run (PS.pinit Args Out Val) es = Some st ->
+  In (g, a, out) (PS.outs Args Out Val st) -> out = fst (run a (PM.fresh Args Val init a)).
+Proof. exact PS.pool_share_outputs_fresh. Qed.
+Print Assumptions C10_pool_share_outputs_fresh.
+
+(** ... and ownership is exclusive: the objects in the pool and the objects held by
+    goroutines always have pairwise different identities, a goroutine holds at most one. *)
+Theorem C10_pool_share_exclusive :
+  forall (Args Out Val Shape : Type) (shape : Args -> Val -> Shape)
+         (fields : list String.string) (cls : list (String.string * PM.fclass))
+         (assigned released : list String.string) (init : Args -> String.string -> Val) (nilv zerov : Val)
+         (gate : Args -> PM.obj Val -> bool) (run : Args -> PM.obj Val -> Out * PM.obj Val),
+  PM.reset_complete_b fields cls assigned released = true ->
+  PM.frame_condition Args Out Val Shape shape fields cls run ->
+  PM.dimension_gate_condition Args Val Shape shape fields cls assigned init gate ->
+  (forall a, PM.czero_inv Val fields cls zerov (PM.fresh Args Val init a)) ->
+  (forall a o, PM.czero_inv Val fields cls zerov o -> PM.czero_inv Val fields cls zerov (snd (run a o))) ->
+  forall (es : list (PS.event Args)) (st : PS.pstate Args Out Val),
+  PS.prun Args Out Val assigned released init nilv gate run (PS.pinit Args Out Val) es = Some st ->
+  NoDup (map fst (PS.pool Args Out Val st) ++ map (PS.h_id Args Val) (PS.held Args Out Val st)) /\
+  NoDup (map (PS.h_g Args Val) (PS.held Args Out Val st)).
+Proof. exact PS.pool_share_exclusive. Qed.
+Print Assumptions C10_pool_share_exclusive.
+
 (** Fork–join sections (shared with C12): disjoint writes + join make the result
     independent of the interleaving, the worker count and the partition; work-queue
     sections (DecodeFramesParallel) are independent of the order in which items are taken. *)
